@@ -573,16 +573,27 @@ TTrunc ==
   /\ Check(E.ok = 0, "C06", "PartialFileIsError", E, "a truncated file is returned as a transaction")
   /\ l' = l + 1 /\ UNCHANGED <<st, hv, aux>>
 
+\* ---- the wallet process is stopped and started again (no crash) -----------
+\* everything persistent is found as it was left (the active account is per process: back to default)
+PersistFields == {"seed", "outs", "txs", "ctxs", "idx", "files", "labels", "scanned"}
+TReopen ==
+  /\ IsEv("reopen")
+  /\ LET e == E  w == e.w IN
+     /\ Check(Ok(e), "C06", "StoreLoads", e, "restart")
+     /\ Ok(e) => Check(\A f \in PersistFields \cap DOMAIN st.w[w] : S2.w[w][f] = st.w[w][f], "C06", "RestartKeepsStore", e, "")
+     /\ CheckMatch(Ok(e) => S2 = [st EXCEPT !.w[w].active = "a0"], e, "Reopen")
+  /\ Step(hv)
+
 \* ---- anything else: observe only ------------------------------------------
 Known == {"reset", "init_send", "lock", "receive", "finalize", "cancel", "post", "mine", "node_up", "node_down",
-          "refresh", "create_account", "set_active", "build_coinbase", "issue_invoice", "process_invoice", "crash", "trunc", "fork", "restore", "diverge", "scan"}
+          "refresh", "create_account", "set_active", "build_coinbase", "issue_invoice", "process_invoice", "crash", "trunc", "fork", "restore", "diverge", "scan", "reopen"}
 TOther == /\ l <= Len(Rec) /\ Rec[l].ev \notin Known
           /\ Step(hv)
 
 TInit == /\ l = 1 /\ st = [w |-> <<>>, chain |-> <<>>, pool |-> {}, body |-> <<>>, reg |-> <<>>, nrep |-> <<>>]
          /\ hv = EmptyHist({}) /\ aux = [nodeUp |-> TRUE, dirty |-> {}, pre |-> <<>>, hvpre |-> EmptyHist({}), ope |-> <<>>, fresh |-> {}, mustRevert |-> {}]
 TNext == \/ TReset \/ TInitSend \/ TLock \/ TReceive \/ TFinalize \/ TCancel \/ TPost \/ TMine \/ TNode
-         \/ TRefresh \/ TAccount \/ TBuildCoinbase \/ TIssueInvoice \/ TProcessInvoice \/ TCrash \/ TTrunc \/ TFork \/ TRestore \/ TDiverge \/ TScan \/ TOther
+         \/ TRefresh \/ TAccount \/ TBuildCoinbase \/ TIssueInvoice \/ TProcessInvoice \/ TCrash \/ TTrunc \/ TFork \/ TRestore \/ TDiverge \/ TScan \/ TReopen \/ TOther
 TSpec == TInit /\ [][TNext]_tvars
 
 \* every line must have been consumed (the spec has no way to get stuck other
